@@ -10,6 +10,16 @@ tie        : the correspondence stream runs programs P interleaved with other wo
              the catalog columns every SQL statement is qualified against
 search     : the same stream compares P's rows / columns / errors (and lookup outcomes) after H with P alone, the SQL
              text of P in two fresh interpreters, and catalog.listTables() around read-only actions
+state that travels from H to P, and how each kind is explored:
+  session registries          ids, alias map, counter, temp views, catalog column cache (snapshots after every statement)
+  objects the user holds      DataFrames (shared frame s1) and *Column objects* (a pool created before H and P: alias-qualified
+                              references, predicates, join conditions, df['c'] handles) that both H and P hand to
+                              where / withColumn / select / orderBy / groupBy / join — their identifiers are observed after
+                              every statement and replayed on the heap model (Impl/C18Columns.lean)
+  what session.sql reads      the statement is qualified against the catalog's column lists with an `infer_schema` argument:
+                              P's statements over permanent tables / own views with unqualified columns, while H registers
+                              unrelated views, looks tables up, calls the catalog API (qualify's inputs and outcome are observed
+                              and replayed on `resolveSql`)
 """
 from __future__ import annotations
 
@@ -30,7 +40,13 @@ ID = "C18"
 LEVEL = "proof"
 MODULES = ["SqlframeModel.Codec.C18", "SqlframeModel.Props.C18"]
 GEN = ["SessionIds", "Views"]
-SOURCES = ["SqlframeModel/Props/C18.lean", "SqlframeModel/Lemmas/C18.lean", "SqlframeModel/Impl/C18Session.lean"]
+SOURCES = [
+    "SqlframeModel/Props/C18.lean",
+    "SqlframeModel/Lemmas/C18.lean",
+    "SqlframeModel/Lemmas/C18Columns.lean",
+    "SqlframeModel/Impl/C18Session.lean",
+    "SqlframeModel/Impl/C18Columns.lean",
+]
 
 TABLES = {
     "T1": {"schema": {"k": "int", "s": "str"}},
@@ -39,8 +55,12 @@ TABLES = {
 ALIASES = ["x", "y"]
 COLUMN_LIKE_ALIASES = ["k", "s", "w"]  # other work may alias a DataFrame with a name that is a column name of P
 VIEWS = ["va", "vb"]
-REAL_TABLES = {"items": {"schema": {"k": "int", "z": "int"}, "rows": [[1, 100], [2, 200]]}}  # a permanent table of the engine
-DEFECT_HYPS = {"H_ctesHaveIds", "H_viewColumnsStable"}
+REAL_TABLES = {  # permanent tables of the engine
+    "items": {"schema": {"k": "int", "z": "int"}, "rows": [[1, 100], [2, 200]]},
+    "other": {"schema": {"k": "int", "q": "int"}, "rows": [[1, 7], [2, 8], [3, 9]]},
+}
+DEFECT_HYPS = {"H_ctesHaveIds", "H_viewColumnsStable", "H_tableLookupsOwn"}
+TAG = "c18_obj"  # meta key that marks the root of a Column object the user holds (survives Expression.copy())
 
 
 def _tuple(e: t.Any) -> t.Any:
@@ -57,7 +77,7 @@ def _tuple(e: t.Any) -> t.Any:
 class PGen:
     """generates one program; `pre` prefixes its variables; `shared` are frames both programs may read"""
 
-    def __init__(self, rng: random.Random, pre: str, shared: t.Dict[str, dict], role: str):
+    def __init__(self, rng: random.Random, pre: str, shared: t.Dict[str, dict], role: str, pool: t.Optional[t.List[dict]] = None):
         self.rng = rng
         self.pre = pre
         self.vars: t.Dict[str, dict] = dict(shared)  # var -> {"schema": {...}, "alias": name|None}
@@ -66,6 +86,10 @@ class PGen:
         self.role = role
         self.use_real = False
         self.views: t.Dict[str, dict] = {}  # view name -> schema (own registrations)
+        self.pool: t.List[dict] = list(pool or [])  # Column objects created before both programs (the user holds them)
+        self.avoid_views: t.Set[str] = set()  # names this program must not register (the other program reads them as tables)
+        self.sql_tables_ok = False
+        self.files: t.Dict[str, dict] = {}
 
     def fresh(self) -> str:
         self.n += 1
@@ -85,12 +109,127 @@ class PGen:
         tb = self.rng.choice(list(TABLES))
         return self.add({"op": "create", "out": self.fresh(), "tbl": tb}, dict(TABLES[tb]["schema"]), alias=None, kind="df")
 
+    # ---- Column objects the user holds -------------------------------------------------------
+    def use(self, obj: t.Optional[dict] = None, how: t.Optional[str] = None) -> t.Optional[str]:
+        """hand a held Column object to a DataFrame method (after aliasing the frame with the names the object mentions)"""
+        r = self.rng
+        if not self.pool:
+            return None
+        obj = obj or r.choice(self.pool)
+        if obj["kind"] == "jcond":
+            return self.join_alias(on_obj=obj)
+        if obj.get("root"):
+            # a df['c'] handle: only frames that descend from that DataFrame (and were not rebuilt by SQL / joins)
+            fs = self.frames(lambda v: v.get("root") == obj["root"] and "k" in v["schema"] and v.get("kind") == "df")
+        else:
+            fs = self.frames(lambda v: "k" in v["schema"] and v.get("kind") == "df")
+        if not fs:
+            return None
+        u = r.choice(fs)
+        for n in obj["needs"]:
+            u = self.alias(u, n)
+        sch = dict(self.vars[u]["schema"])
+        hows = USE_HOWS[obj["ty"]]
+        how = how if how in hows else r.choice(hows)
+        st = {"op": "use", "out": self.fresh(), "in": u, "c": obj["out"], "how": how}
+        if how in ("where_and", "where_cmp"):
+            st["lit"] = r.choice([0, 1, 2])
+        if how == "withColumn":
+            sch["j"] = obj["ty"]
+        elif how == "select_as":
+            sch = {"j": obj["ty"]}
+        elif how == "groupBy":
+            sch = {"g": obj["ty"], "n": "int"}
+        info = dict(alias=None, kind="df" if how not in ("select_as", "groupBy") else "derived", root=self.vars[u].get("root") if how not in ("select_as", "groupBy") else None)
+        return self.add(st, sch, **info)
+
+    # ---- siblings of a DataFrame that is kept --------------------------------------------------------
+    def sibling(self, u: t.Optional[str] = None, how: t.Optional[str] = None) -> t.Optional[str]:
+        """derive another DataFrame from a frame that stays in use (the receiver must come out of it unchanged)"""
+        r = self.rng
+        fs = self.frames(lambda v: v.get("held"))
+        if u is None and not fs:
+            return None
+        u = u or r.choice(fs)
+        sch = dict(self.vars[u]["schema"])
+        cols = list(sch)
+        how = how or r.choice(SIBLING_HOWS)
+        if how in ("fillna",) and sch[cols[0]] != "int" and all(v != "int" for v in sch.values()):
+            how = "distinct"
+        if how == "drop" and len(cols) < 2:
+            how = "distinct"
+        out_s = dict(sch)
+        if how == "groupBy":
+            out_s = {cols[0]: sch[cols[0]], "n": "int"}
+        elif how == "drop":
+            out_s.pop(cols[-1])
+        elif how == "withColumnRenamed":
+            out_s = {(("renamed") if c == cols[-1] else c): ty for c, ty in sch.items()}
+        elif how == "select":
+            out_s = {cols[0]: sch[cols[0]]}
+        elif how == "join_self":
+            out_s = dict(sch)
+        # limit without a total order returns an arbitrary row: such a sibling is built (and may be counted) but is never P's result
+        return self.add({"op": "sibling", "out": self.fresh(), "in": u, "how": how}, out_s, alias=None, kind="derived", nondet=(how == "limit"))
+
+    def read_file(self, files: t.Dict[str, dict], chain: t.Optional[list] = None, call: t.Optional[str] = None, kwargs: t.Optional[dict] = None) -> t.Optional[str]:
+        r = self.rng
+        if not files:
+            return None
+        f = r.choice(list(files))
+        if chain is None:
+            chain, call, kwargs = r.choice(READ_CHAINS_H if self.role == "H" else READ_CHAINS_P)
+        return self.add({"op": "read", "out": self.fresh(), "file": f, "chain": copy.deepcopy(chain), "call": call, "kwargs": dict(kwargs or {})}, {c: "any" for c in files[f]["header"]}, alias=None, kind="file")
+
+    # ---- session.sql over permanent tables / own views with unqualified columns ----------------
+    def sql_tables(self, shape: t.Optional[int] = None) -> t.Optional[str]:
+        r = self.rng
+        perm = [n for n in REAL_TABLES if n not in self.views]
+        own = [n for n, sch in self.views.items() if "k" in sch and len(sch) > 1]
+        shapes = []
+        if "items" in perm:
+            shapes += [0, 3]
+        if "items" in perm and "other" in perm:
+            shapes += [1, 4]
+        if own and "items" in perm:
+            shapes += [2]
+        if own:
+            shapes += [5]
+        if not shapes:
+            return None
+        shape = shape if shape in shapes else r.choice(shapes)
+        lit = r.choice([0, 1, 2])
+        if shape == 0:
+            text, srcs, out_s = f"SELECT z FROM items WHERE k > {lit}", [["items", "items"]], {"z": "int"}
+        elif shape == 1:
+            text, srcs, out_s = "SELECT z, q FROM items JOIN other ON items.k = other.k", [["items", "items"], ["other", "other"]], {"z": "int", "q": "int"}
+        elif shape == 2:
+            v = r.choice(own)
+            c = [x for x in self.views[v] if x != "k"][0]
+            text, srcs, out_s = f"SELECT {c}, z FROM {v} JOIN items ON {v}.k = items.k", [[v, v], ["items", "items"]], {c: self.views[v][c], "z": "int"}
+        elif shape == 3:
+            text, srcs, out_s = f"SELECT i.z AS z FROM items AS i WHERE i.k > {lit}", [["i", "items"]], {"z": "int"}
+        elif shape == 4:
+            text, srcs, out_s = f"SELECT i.z AS z FROM items AS i JOIN other AS o ON i.k = o.k WHERE q > {lit}", [["i", "items"], ["o", "other"]], {"z": "int"}
+        else:
+            v = r.choice(own)
+            c = [x for x in self.views[v] if x != "k"][0]
+            text, srcs, out_s = f"SELECT {c} FROM {v} WHERE k > {lit}", [[v, v]], {c: self.views[v][c]}
+        views = [cat for _, cat in srcs if cat in self.views]
+        return self.add({"op": "sql", "out": self.fresh(), "text": text, "views": views, "srcs": srcs}, out_s, alias=None, kind="sql")
+
+    def catalog_lookup(self) -> None:
+        r = self.rng
+        what = r.choice(["listColumns", "listTables", "tableExists", "getTable"])
+        name = r.choice(list(REAL_TABLES)) if self.use_real else "no_such_table"
+        self.add({"op": "catalog", "what": what, "name": name})
+
     def chain_op(self, u: str) -> str:
         r = self.rng
         sch = self.vars[u]["schema"]
         g = X.Gen(r, sch)
         c = r.random()
-        info = dict(alias=None, kind=self.vars[u].get("kind", "df"))
+        info = dict(alias=None, kind=self.vars[u].get("kind", "df"), root=self.vars[u].get("root"))
         if c < 0.4:
             return self.add({"op": "where", "out": self.fresh(), "in": u, "p": g.bool_expr(r.choice([1, 2]))}, dict(sch), **info)
         if c < 0.7:
@@ -104,7 +243,7 @@ class PGen:
             items.append([n_, e])
             out_s = {"k": "int"} if "k" in sch else {}
             out_s[n_] = ty
-            return self.add({"op": "select", "out": self.fresh(), "in": u, "items": items}, out_s, **info)
+            return self.add({"op": "select", "out": self.fresh(), "in": u, "items": items}, out_s, **dict(info, root=None))
         if c < 0.85:
             e, ty = g.any_expr(2)
             n_ = r.choice(["j", "m"])
@@ -114,15 +253,17 @@ class PGen:
         return self.add({"op": "distinct", "out": self.fresh(), "in": u}, dict(sch), **info)
 
     def alias(self, u: str, name: str, kind: str = "df") -> str:
-        return self.add({"op": "alias", "out": self.fresh(), "in": u, "name": name}, dict(self.vars[u]["schema"]), alias=name, kind=kind)
+        return self.add({"op": "alias", "out": self.fresh(), "in": u, "name": name}, dict(self.vars[u]["schema"]), alias=name, kind=kind, root=self.vars[u].get("root"))
 
-    def join_alias(self) -> t.Optional[str]:
+    def join_alias(self, on_obj: t.Optional[dict] = None) -> t.Optional[str]:
         r = self.rng
         ks = self.frames(lambda v: "k" in v["schema"] and v.get("kind") == "df")
         if len(ks) < 1:
             return None
         u1, u2 = r.choice(ks), r.choice(ks)
         n1, n2 = r.sample(["x", "y"], 2)
+        if on_obj is not None:
+            n1, n2 = on_obj["needs"]
         a1 = self.alias(u1, n1)
         a2 = self.alias(u2, n2)
         c1 = [c for c in self.vars[u1]["schema"] if c != "k"]
@@ -135,7 +276,10 @@ class PGen:
         if c2:
             sel.append([f"{n2}.{c2[0]}", "a2"])
             out_s["a2"] = self.vars[u2]["schema"][c2[0]]
-        return self.add({"op": "join_alias", "out": self.fresh(), "l": a1, "r": a2, "on": [f"{n1}.k", f"{n2}.k"], "sel": sel}, out_s, alias=None, kind="join")
+        st = {"op": "join_alias", "out": self.fresh(), "l": a1, "r": a2, "on": [f"{n1}.k", f"{n2}.k"], "sel": sel}
+        if on_obj is not None:
+            st["on_obj"] = on_obj["out"]
+        return self.add(st, out_s, alias=None, kind="join")
 
     def alias_select(self) -> t.Optional[str]:
         """df.alias(n).select(col('n.c'))"""
@@ -172,7 +316,7 @@ class PGen:
         if not fs:
             return None
         u = r.choice(fs)
-        name = r.choice(VIEWS + (list(REAL_TABLES) if self.use_real else []))  # a temp view may shadow a permanent table
+        name = r.choice([n for n in VIEWS + (list(REAL_TABLES) if self.use_real else []) if n not in self.avoid_views])  # a temp view may shadow a permanent table
         sch = self.vars[u]["schema"]
         self.add({"op": "register", "in": u, "name": name, "cols": list(sch)})
         self.views[name] = sch
@@ -195,7 +339,7 @@ class PGen:
     def table_real(self) -> str:
         """session.table(<permanent table>): the session catalog caches the table's columns"""
         name = self.rng.choice(list(REAL_TABLES))
-        return self.add({"op": "table_real", "out": self.fresh(), "name": name}, dict(REAL_TABLES[name]["schema"]), alias=None, kind="df")
+        return self.add({"op": "table_real", "out": self.fresh(), "name": name}, dict(REAL_TABLES[name]["schema"]), alias=None, kind="df", root=None)
 
     def table_read(self) -> t.Optional[str]:
         if not self.views:
@@ -218,8 +362,10 @@ class PGen:
             self.add({"op": "show", "in": u})
         elif c < 0.8:
             self.add({"op": "schema", "in": u})
-        elif c < 0.9:
+        elif c < 0.87:
             self.add({"op": "bad_collect", "in": u})
+        elif c < 0.93:
+            self.catalog_lookup()
         else:
             self.add({"op": "bad_sql"})
 
@@ -233,6 +379,18 @@ class PGen:
         for _ in range(n_steps):
             c = r.random()
             v = None
+            if self.pool and r.random() < 0.4:
+                v = self.use()
+                c = 2.0
+            elif self.frames(lambda v_: v_.get("held")) and r.random() < 0.4:
+                v = self.sibling()
+                c = 2.0
+            elif self.files and r.random() < 0.4:
+                v = self.read_file(self.files)
+                c = 2.0
+            elif self.sql_tables_ok and r.random() < 0.3:
+                v = self.sql_tables()
+                c = 2.0
             if c < 0.3:
                 fs = self.frames(lambda v_: v_.get("kind") in ("df", "sql", "sqlcte", "view"))
                 if fs:
@@ -251,10 +409,12 @@ class PGen:
                 v = self.create()
                 if self.role == "H" and r.random() < 0.6:
                     self.alias_only()
-                if self.role == "H" and self.use_real and r.random() < 0.7:
+                if (self.role == "H" or self.sql_tables_ok) and self.use_real and r.random() < 0.7:
                     self.table_real()
-            elif with_actions:
+            elif with_actions and c < 1.5:
                 self.action()
+            if v and self.vars[v].get("nondet"):
+                v = None
             if v:
                 last = v
             if with_actions and r.random() < 0.25:
@@ -262,29 +422,293 @@ class PGen:
         return self.steps, last
 
 
+SIBLING_HOWS = ["distinct", "dropDuplicates", "orderBy", "limit", "groupBy", "drop", "withColumnRenamed", "union_self", "intersect_self", "where", "select", "alias", "join_self", "fillna", "dropna", "count"]
+HELD_SHAPES = ["leaf", "where", "alias", "union", "join", "select", "withColumn", "where_where", "distinct"]
+# (builder calls on the reader, the loading call, its keyword arguments)
+READ_CHAINS_H = [
+    ([["format", "csv"], ["option", "skip", 1], ["option", "header", True]], "load", {}),
+    ([["option", "header", False]], "csv", {}),
+    ([["options", {"skip": 1}]], "csv", {"header": True}),
+    ([["format", "csv"], ["option", "all_varchar", True]], "load", {}),
+    ([["option", "delim", ";"]], "csv", {"header": True}),
+    ([], "csv", {"header": True}),
+]
+READ_CHAINS_P = [
+    ([], "csv", {"header": True}),
+    ([["option", "header", True]], "csv", {}),
+    ([["format", "csv"]], "load", {"header": True}),
+    ([], "load", {"format": "csv"}),
+    ([], "csv", {}),
+]
+FILES = {"f1": {"header": ["k", "s"], "rows": [[1, "a"], [2, "b"], [3, "c"]]}, "f2": {"header": ["k", "w"], "rows": [[1, 10], [1, 10], [5, 50]]}}
+
+
+def held_frame_prelude(rng: random.Random, shape: str) -> t.Tuple[t.List[dict], t.Dict[str, dict]]:
+    """a DataFrame the user builds once and keeps: `shape` is the operation it is the result of (what the @operation
+    wrapper does to it at the next call depends on that)"""
+    tb = rng.choice(list(TABLES))
+    sch = dict(TABLES[tb]["schema"])
+    pre: t.List[dict] = [{"op": "create", "out": "s1", "tbl": tb}]
+    shared: t.Dict[str, dict] = {"s1": {"schema": sch, "alias": None, "kind": "df", "root": "s1"}}
+    true_pred = ("bin", "or", ("bin", "ge", ("col", "k"), ("lit", 0)), ("isNull", ("col", "k")))
+    if shape == "leaf":
+        pre[0]["held"] = True
+        shared["s1"]["held"] = True
+        return pre, shared
+    if shape == "where":
+        st = {"op": "where", "out": "s2", "in": "s1", "p": true_pred}
+    elif shape == "where_where":
+        pre.append({"op": "where", "out": "s0", "in": "s1", "p": true_pred})
+        st = {"op": "where", "out": "s2", "in": "s0", "p": ("bin", "ne", ("col", "k"), ("lit", -7))}
+    elif shape == "alias":
+        st = {"op": "alias", "out": "s2", "in": "s1", "name": "y"}
+    elif shape == "union":
+        st = {"op": "union", "out": "s2", "in": "s1", "other": "s1"}
+    elif shape == "join":
+        pre += [{"op": "alias", "out": "sa", "in": "s1", "name": "x"}, {"op": "alias", "out": "sb", "in": "s1", "name": "y"}]
+        st = {"op": "join_alias", "out": "s2", "l": "sa", "r": "sb", "on": ["x.k", "y.k"], "sel": [["x.k", "k"]]}
+        sch = {"k": "int"}
+    elif shape == "select":
+        st = {"op": "select", "out": "s2", "in": "s1", "items": [["k", ("col", "k")]]}
+        sch = {"k": "int"}
+    elif shape == "withColumn":
+        st = {"op": "withColumn", "out": "s2", "in": "s1", "n": "j", "e": ("bin", "add", ("col", "k"), ("lit", 1))}
+        sch = dict(sch, j="int")
+    elif shape == "distinct":
+        st = {"op": "distinct", "out": "s2", "in": "s1"}
+    else:
+        raise ValueError(shape)
+    st["held"] = True
+    pre.append(st)
+    shared["s2"] = {"schema": sch, "alias": None, "kind": "df" if shape not in ("join", "select") else "derived", "root": None, "held": True}
+    return pre, shared
+
+
+def family_held_frames(rng: random.Random, shape: str, how: str, p_kind: str) -> t.Optional[dict]:
+    """a DataFrame is built once and kept; other work (or P itself) derives a sibling from it; P then uses the kept
+    DataFrame.  The data contains duplicate rows and NULLs so that an edit of the receiver shows in its rows."""
+    data = base_data(rng)
+    data["T1"] = [[1, "a"], [1, "a"], [2, "b"], [2, "b"], [3, None], [None, "a"]] + data["T1"][:2]
+    data["T2"] = [[1, 10], [1, 10], [2, 20], [2, 20], [5, None], [None, 50]] + data["T2"][:2]
+    prelude, shared = held_frame_prelude(rng, shape)
+    held = "s2" if "s2" in shared else "s1"
+    hg = PGen(rng, "h", shared, "H")
+    pg = PGen(rng, "p", shared, "P")
+    who = pg if p_kind == "own_sibling" else hg
+    sib = who.sibling(held, how)
+    if sib is None:
+        return None
+    if rng.random() < 0.5:
+        who.add({"op": rng.choice(["count", "collect"]), "in": sib})
+    if p_kind in ("collect", "own_sibling"):
+        pg.add({"op": "collect", "in": held})
+        res = held
+    elif p_kind == "count":
+        pg.add({"op": "count", "in": held})
+        res = held
+    else:
+        res = pg.chain_op(held) if shared[held].get("kind") == "df" else pg.sibling(held, "where")
+    inter = [["H", i] for i in range(len(hg.steps))] + [["P", i] for i in range(len(pg.steps))]
+    return {"data": data, "tables": [], "prelude": prelude, "P": pg.steps, "H": hg.steps, "inter": inter, "result": res}
+
+
+def family_readers(rng: random.Random, h_chain: tuple, p_chain: tuple) -> dict:
+    """other work reads a file through a chain of builder calls on session.read; P then reads a file its own way"""
+    data = base_data(rng)
+    hg = PGen(rng, "h", {}, "H")
+    pg = PGen(rng, "p", {}, "P")
+    u = hg.read_file(FILES, *h_chain)
+    if rng.random() < 0.5:
+        hg.add({"op": rng.choice(["count", "collect"]), "in": u})
+    res = pg.read_file(FILES, *p_chain)
+    inter = [["H", i] for i in range(len(hg.steps))] + [["P", i] for i in range(len(pg.steps))]
+    if rng.random() < 0.25:  # the other work's chain comes between two reads of P
+        pg.read_file(FILES, *p_chain)
+        inter = [["P", 0]] + [["H", i] for i in range(len(hg.steps))] + [["P", 1]]
+        res = pg.steps[1]["out"]
+    return {"data": data, "tables": [], "files": copy.deepcopy(FILES), "prelude": [], "P": pg.steps, "H": hg.steps, "inter": inter, "result": res}
+
+
+USE_HOWS = {
+    "bool": ["where", "where_and", "withColumn", "select_as", "orderBy"],
+    "int": ["where_cmp", "withColumn", "select_as", "orderBy", "groupBy"],
+}
+POOL_KINDS = ["qref", "qpred", "qexpr", "pred", "jcond", "handle", "hpred"]
+
+
+def mk_pool_obj(rng: random.Random, kind: str, name: str, shared: t.Dict[str, dict]) -> t.Optional[dict]:
+    """one Column object the user holds: a prelude step plus what a program needs to know to use it"""
+    lit = rng.choice([0, 1, 2])
+    a = rng.choice(ALIASES)
+    if kind == "qref":
+        return {"op": "mkcol", "out": name, "e": ("col", f"{a}.k"), "kind": kind, "ty": "int", "needs": [a]}
+    if kind == "qpred":
+        return {"op": "mkcol", "out": name, "e": ("bin", rng.choice(["gt", "ge", "lt", "ne"]), ("col", f"{a}.k"), ("lit", lit)), "kind": kind, "ty": "bool", "needs": [a]}
+    if kind == "qexpr":
+        return {"op": "mkcol", "out": name, "e": ("bin", rng.choice(ARITH_OPS), ("col", f"{a}.k"), ("lit", lit)), "kind": kind, "ty": "int", "needs": [a]}
+    if kind == "pred":
+        return {"op": "mkcol", "out": name, "e": ("bin", rng.choice(["gt", "ge", "lt", "ne"]), ("col", "k"), ("lit", lit)), "kind": kind, "ty": "bool", "needs": []}
+    if kind == "jcond":
+        n1, n2 = rng.sample(ALIASES, 2)
+        return {"op": "mkcol", "out": name, "e": ("bin", "eq", ("col", f"{n1}.k"), ("col", f"{n2}.k")), "kind": kind, "ty": "bool", "needs": [n1, n2]}
+    if kind in ("handle", "hpred"):
+        roots = [v for v, inf in shared.items() if "k" in inf["schema"]]
+        if not roots:
+            return None
+        root = rng.choice(roots)
+        return {"op": "mkhandle", "out": name, "in": root, "col": "k", "lit": (lit if kind == "hpred" else None), "kind": kind, "ty": ("bool" if kind == "hpred" else "int"), "needs": [], "root": root}
+    raise ValueError(kind)
+
+
+ARITH_OPS = ["add", "sub", "mul"]
+
+
+def make_pool(rng: random.Random, shared: t.Dict[str, dict], n: int) -> t.List[dict]:
+    out: t.List[dict] = []
+    for i in range(n):
+        o = mk_pool_obj(rng, rng.choice(POOL_KINDS), f"c{i}", shared)
+        if o:
+            out.append(o)
+    return out
+
+
+def base_data(rng: random.Random) -> dict:
+    return {tb: X.gen_table(rng, TABLES[tb]["schema"], 4) or [[1, "a"] if tb == "T1" else [1, 10]] for tb in TABLES}
+
+
+def family_held_columns(rng: random.Random, kind: str, how_h: t.Optional[str], how_p: t.Optional[str], share_frame: bool) -> t.Optional[dict]:
+    """a Column object is created once; other work hands it to a DataFrame method, then P hands the same object to a
+    DataFrame method of its own pipeline (same alias names, own frames or the shared frame)"""
+    data = base_data(rng)
+    # data under which the predicates are not vacuous
+    data["T1"] = data["T1"] + [[1, "a"], [2, "b"], [3, None]]
+    data["T2"] = data["T2"] + [[1, 10], [2, 20], [5, 50]]
+    shared: t.Dict[str, dict] = {}
+    prelude: t.List[dict] = []
+    if share_frame or kind in ("handle", "hpred"):
+        tb = rng.choice(list(TABLES))
+        prelude.append({"op": "create", "out": "s1", "tbl": tb})
+        shared["s1"] = {"schema": dict(TABLES[tb]["schema"]), "alias": None, "kind": "df", "root": "s1"}
+    obj = mk_pool_obj(rng, kind, "c0", shared)
+    if obj is None:
+        return None
+    prelude.append(obj)
+    hg = PGen(rng, "h", shared, "H", [obj])
+    if not shared or rng.random() < 0.5:
+        hg.create()
+    if hg.use(obj, how_h) is None:
+        return None
+    if rng.random() < 0.3:
+        hg.action()
+    pg = PGen(rng, "p", shared, "P", [obj])
+    if not shared or rng.random() < 0.5:
+        pg.create()
+    res = pg.use(obj, how_p)
+    if res is None:
+        return None
+    if rng.random() < 0.4:
+        res = pg.chain_op(res) if pg.vars[res].get("kind") == "df" else res
+    inter = [["H", i] for i in range(len(hg.steps))] + [["P", i] for i in range(len(pg.steps))]
+    if rng.random() < 0.3:
+        inter = interleave(rng, pg.steps, hg.steps)
+    return {"data": data, "tables": [], "prelude": prelude, "P": pg.steps, "H": hg.steps, "inter": inter, "result": res}
+
+
+def family_sql_tables(rng: random.Random, shape: int, hist: str) -> t.Optional[dict]:
+    """P: a session.sql statement over permanent tables (and an own view) with unqualified columns;
+    H: work that changes what the session knows — an unrelated temp view, table lookups, catalog calls, schema lookups"""
+    data = base_data(rng)
+    data["T1"] = data["T1"] + [[1, "a"], [2, "b"]]
+    data["T2"] = data["T2"] + [[1, 10], [2, 20]]
+    pg = PGen(rng, "p", {}, "P")
+    pg.use_real = True
+    if shape in (2, 5):
+        tb = rng.choice(list(TABLES))
+        u = pg.add({"op": "create", "out": pg.fresh(), "tbl": tb}, dict(TABLES[tb]["schema"]), alias=None, kind="df")
+        v = rng.choice(VIEWS)
+        pg.add({"op": "register", "in": u, "name": v, "cols": list(TABLES[tb]["schema"])})
+        pg.views[v] = dict(TABLES[tb]["schema"])
+    if shape in (0, 1, 2, 3, 4) and rng.random() < 0.35:
+        # P looks a table of its statement up itself first (then the statement is qualified against the cached columns)
+        name = "items" if shape != 1 or rng.random() < 0.5 else "other"
+        pg.add({"op": "table_real", "out": pg.fresh(), "name": name}, dict(REAL_TABLES[name]["schema"]), alias=None, kind="df")
+    res = pg.sql_tables(shape)
+    if res is None:
+        return None
+    if rng.random() < 0.4:
+        g = X.Gen(rng, pg.vars[res]["schema"])
+        res = pg.add({"op": "where", "out": pg.fresh(), "in": res, "p": g.bool_expr(1)}, dict(pg.vars[res]["schema"]), alias=None, kind="sql")
+    hg = PGen(rng, "h", {}, "H")
+    hg.use_real = True
+    hg.avoid_views = set(REAL_TABLES) | set(pg.views)
+    for what in hist.split("+"):
+        if what == "view":
+            hg.create()
+            hg.view_sql({})
+        elif what == "items":
+            hg.add({"op": "table_real", "out": hg.fresh(), "name": "items"}, dict(REAL_TABLES["items"]["schema"]), alias=None, kind="df")
+        elif what == "other":
+            hg.add({"op": "table_real", "out": hg.fresh(), "name": "other"}, dict(REAL_TABLES["other"]["schema"]), alias=None, kind="df")
+        elif what == "catalog":
+            hg.catalog_lookup()
+        elif what == "schema":
+            u = hg.create()
+            hg.add({"op": "schema", "in": u})
+        elif what == "fail":
+            hg.add({"op": "bad_sql"})
+    inter = [["H", i] for i in range(len(hg.steps))] + [["P", i] for i in range(len(pg.steps))]
+    if rng.random() < 0.3:
+        inter = interleave(rng, pg.steps, hg.steps)
+    return {"data": data, "tables": list(REAL_TABLES), "prelude": [], "P": pg.steps, "H": hg.steps, "inter": inter, "result": res}
+
+
+SQL_HISTORIES = ["view", "items", "other", "view+items", "items+other", "catalog", "schema+view", "fail+view", "view+other+catalog"]
+
+
 def gen_case(rng: random.Random) -> dict:
     data = {tb: X.gen_table(rng, TABLES[tb]["schema"], 4) or [[1, "a"] if tb == "T1" else [1, 10]] for tb in TABLES}
     shared: t.Dict[str, dict] = {}
     prelude: t.List[dict] = []
-    if rng.random() < 0.5:
+    mode = rng.random()
+    if mode < 0.2:
+        # a DataFrame that is the result of some operation, built once and kept by both programs
+        prelude, shared = held_frame_prelude(rng, rng.choice(HELD_SHAPES))
+        for tb in data:
+            if data[tb]:
+                data[tb] = data[tb] + [list(data[tb][0])]  # a duplicate row
+    elif mode < 0.6:
         # a DataFrame handle both programs use (other DataFrames over the same data *and* the same object)
         tb = rng.choice(list(TABLES))
         prelude.append({"op": "create", "out": "s1", "tbl": tb})
-        shared["s1"] = {"schema": dict(TABLES[tb]["schema"]), "alias": None, "kind": "df"}
-    use_real = rng.random() < 0.3
-    pg = PGen(rng, "p", shared, "P")
+        shared["s1"] = {"schema": dict(TABLES[tb]["schema"]), "alias": None, "kind": "df", "root": "s1"}
+    pool: t.List[dict] = []
+    if rng.random() < 0.4:
+        pool = make_pool(rng, shared, rng.randint(1, 3))
+        prelude += pool
+    use_real = rng.random() < 0.35
+    pg = PGen(rng, "p", shared, "P", pool)
+    files = FILES if rng.random() < 0.15 else {}
+    pg.files = files
     pg.use_real = use_real
+    pg.sql_tables_ok = use_real and rng.random() < 0.6
     psteps, pres = pg.build(rng.randint(2, 4), with_actions=False)
     if pres is None:
         pres = pg.create()
         psteps = pg.steps
-    hg = PGen(rng, "h", shared, "H")
+    hg = PGen(rng, "h", shared, "H", pool)
+    hg.files = files
     hg.use_real = use_real
+    # P reads these names as permanent tables: a temp view of that name registered by H would shadow them (the
+    # namespace is shared by design) — H does not register them
+    hg.avoid_views = {cat for st in psteps for _, cat in st.get("srcs", []) if cat in REAL_TABLES}
     if use_real and rng.random() < 0.7:
         hg.table_real()
     hsteps, _ = hg.build(rng.randint(2, 5), with_actions=True)
     inter = interleave(rng, psteps, hsteps)
-    return {"data": data, "tables": (list(REAL_TABLES) if use_real else []), "prelude": prelude, "P": psteps, "H": hsteps, "inter": inter, "result": pres}
+    c = {"data": data, "tables": (list(REAL_TABLES) if use_real else []), "prelude": prelude, "P": psteps, "H": hsteps, "inter": inter, "result": pres}
+    if pg.files:
+        c["files"] = copy.deepcopy(FILES)
+    return c
 
 
 def family_shadow_table(rng: random.Random) -> dict:
@@ -363,23 +787,80 @@ def interleave(rng: random.Random, ps: t.List[dict], hs: t.List[dict]) -> t.List
 
 _HOOKED = False
 _TRACE: t.List[dict] = []
+_QTRACE: t.List[dict] = []
+_STATE: t.Dict[str, t.Any] = {"path": None, "pass": 0, "refs": [], "n": 0}
+
+
+def _refs_of(roots: t.List[t.Any]) -> t.List[t.Any]:
+    """for every identifier `normalize` will visit (in its order): the held Column object it belongs to and its
+    position among that object's identifiers, or None (an identifier of a Column built for this call)"""
+    from sqlglot import exp
+
+    refs: t.List[t.Any] = []
+    held = _STATE.get("held") or {}
+    for root in roots:
+        owner: t.Dict[int, t.Tuple[int, int]] = {}
+        for node in root.walk():
+            meta = getattr(node, "_meta", None)
+            if meta and TAG in meta and meta[TAG] in held:
+                idns = list(node.find_all(exp.Identifier))
+                # the kept object itself, or a faithful copy of it as it is now (a copy that an earlier pass of the same
+                # statement already rewrote is a Column of its own)
+                if [i.alias_or_name for i in idns] != [i.alias_or_name for i in held[meta[TAG]].expression.find_all(exp.Identifier)]:
+                    continue
+                for i, idn in enumerate(idns):
+                    owner.setdefault(id(idn), (meta[TAG], i))
+        for idn in root.find_all(exp.Identifier):
+            refs.append(owner.get(id(idn)))
+    return refs
 
 
 def install_hook() -> None:
-    """record, for every identifier `normalize` processes, the CTE chain, the identifier and what it became"""
+    """record, for every identifier `normalize` processes: the pass (one call of `normalize`) and the path it came
+    through, the CTE chain, the identifier, the held object it belongs to, and what it became; and for every
+    statement `session.sql` qualifies: the arguments and the outcome of sqlglot's `qualify`"""
     global _HOOKED
     if _HOOKED:
         return
     if vlib.REPO not in sys.path:
         sys.path.insert(0, vlib.REPO)
+    from sqlglot import exp
+    from sqlglot.helper import ensure_list
+
     from sqlframe.base import normalize as N
+    from sqlframe.base import session as S
+    from sqlframe.base.dataframe import BaseDataFrame
     from sqlframe.base.util import get_tables_from_expression_with_join
 
     orig_a = N.replace_alias_name_with_cte_name
     orig_b = N.replace_branch_and_sequence_ids_with_cte_name
+    orig_n = N.normalize
+
+    def wrap_n(session, ctx, expr):
+        _STATE["pass"] += 1
+        _STATE["n"] = 0
+        try:
+            roots = []
+            for v in ensure_list(expr):
+                if isinstance(v, exp.Expression):
+                    roots.append(v)
+                elif isinstance(v, str):
+                    roots.append(N.Column.ensure_col(v).expression)  # same identifiers, in the same order, as normalize will build
+                else:
+                    roots.append(v.expression)
+            _STATE["refs"] = _refs_of(roots)
+        except Exception:  # noqa
+            _STATE["refs"] = []
+        return orig_n(session, ctx, expr)
 
     def wrap_a(session, ctx, ident):
+        k = _STATE["n"]
+        _STATE["n"] = k + 1
+        ref = _STATE["refs"][k] if k < len(_STATE["refs"]) else None
         rec = {
+            "pass": _STATE["pass"],
+            "path": _STATE["path"] or "multi",
+            "ref": list(ref) if ref else None,
             "ctx": [[c.alias_or_name, c.args.get("branch_id"), c.args.get("sequence_id")] for c in ctx.ctes],
             "joined": [x.alias_or_name for x in get_tables_from_expression_with_join(ctx)] if ctx.args.get("joins") else [],
             "ident": session._normalize_string(ident.alias_or_name),
@@ -404,9 +885,168 @@ def install_hook() -> None:
             rec["after"] = {"ident": ident.alias_or_name}
         return r
 
+    def path_wrapper(name: str, label: str) -> None:
+        orig = getattr(BaseDataFrame, name)
+
+        def wrapped(self, *a, **kw):
+            prev = _STATE["path"]
+            _STATE["path"] = label
+            try:
+                return orig(self, *a, **kw)
+            finally:
+                _STATE["path"] = prev
+
+        setattr(BaseDataFrame, name, wrapped)
+
+    orig_q = S.qualify_func
+
+    def wrap_q(expression, **kw):
+        schema = kw.get("schema")
+        rec: t.Dict[str, t.Any] = {"infer": kw.get("infer_schema"), "schema_is_catalog": None, "tables": [], "ucols": [], "resolved": None, "err": None}
+        cols = []
+        try:
+            for tb in expression.find_all(exp.Table):
+                known = list(schema.column_names(tb)) if schema is not None else []
+                rec["tables"].append([tb.alias_or_name, tb.name, known])
+            cols = [c for c in expression.find_all(exp.Column) if not c.table]
+            rec["ucols"] = [c.name for c in cols]
+        except Exception as e:  # noqa
+            rec["err"] = f"observer: {type(e).__name__}"
+        _QTRACE.append(rec)
+        try:
+            out = orig_q(expression, **kw)
+        except Exception as e:  # noqa
+            rec["resolved"] = [(c.table or None) for c in cols]
+            rec["err"] = type(e).__name__
+            raise
+        rec["resolved"] = [(c.table or None) for c in cols]
+        return out
+
+    from sqlframe.duckdb.readwriter import DuckDBDataFrameReader
+
+    orig_load = DuckDBDataFrameReader.load
+
+    def wrap_load(self, *a, **kw):
+        if _STATE.get("reader_seen") is None:  # the outermost load of the statement: what the chain's reader carries
+            _STATE["reader_seen"] = reader_tokens(self)
+        return orig_load(self, *a, **kw)
+
+    DuckDBDataFrameReader.load = wrap_load
     N.replace_alias_name_with_cte_name = wrap_a
     N.replace_branch_and_sequence_ids_with_cte_name = wrap_b
+    N.normalize = wrap_n
+    path_wrapper("_ensure_and_normalize_col", "single")
+    path_wrapper("_ensure_and_normalize_cols", "multi")
+    S.qualify_func = wrap_q
     _HOOKED = True
+
+
+READER = "@read"  # the pool slot of "the reader object session.read hands out next"
+
+
+def pool_of(c: dict) -> t.List[str]:
+    """the objects that outlive a statement, in heap order: Column objects and DataFrames created before both programs
+    and kept by the user, and the session's reader when a program reads files"""
+    pool = [st["out"] for st in c["prelude"] if st["op"] in ("mkcol", "mkhandle") or st.get("held")]
+    if any(st["op"] == "read" for st in c["P"] + c["H"]):
+        pool.append(READER)
+    return pool
+
+
+def pool_kinds(c: dict) -> t.List[str]:
+    kinds = []
+    for st in c["prelude"]:
+        if st["op"] in ("mkcol", "mkhandle"):
+            kinds.append("column")
+        elif st.get("held"):
+            kinds.append("frame")
+    if any(st["op"] == "read" for st in c["P"] + c["H"]):
+        kinds.append("reader")
+    return kinds
+
+
+def reader_tokens(r: t.Any) -> t.List[str]:
+    out = []
+    if getattr(r, "state_format_to_read", None) is not None:
+        out.append(f"format={r.state_format_to_read}")
+    for k, v in (getattr(r, "state_options", None) or {}).items():
+        out.append(f"{k}={v}")
+    return out
+
+
+def is_frame(x: t.Any) -> bool:
+    from sqlframe.base.dataframe import BaseDataFrame
+
+    return isinstance(x, BaseDataFrame)
+
+
+def pool_idents(s: t.Any, env: t.Dict[str, t.Any], pool: t.List[str]) -> t.List[t.List[str]]:
+    """the state of every kept object, as it is now: the identifiers of a Column; a digest of a DataFrame's own
+    expression and last_op; the settings on the reader `session.read` hands out"""
+    from sqlglot import exp
+
+    out: t.List[t.List[str]] = []
+    for name in pool:
+        if name == READER:
+            out.append(reader_tokens(s.read))
+        elif name not in env:
+            out.append([])
+        elif is_frame(env[name]):
+            df = env[name]
+            out.append([vlib.digest([df.expression.sql(dialect=s.input_dialect), int(df.last_op), sorted(str(h) for h in (df.pending_hints or []))])])
+        else:
+            out.append([s._normalize_string(i.alias_or_name) for i in env[name].expression.find_all(exp.Identifier)])
+    return out
+
+
+def method_op(name: str) -> t.Optional[int]:
+    """the Operation a DataFrame method is tagged with (read from the decorator's closure)"""
+    from sqlframe.base.dataframe import BaseDataFrame
+    from sqlframe.base.operations import Operation
+
+    w = getattr(BaseDataFrame, name, None)
+    for cell in getattr(w, "__closure__", None) or []:
+        try:
+            if isinstance(cell.cell_contents, Operation):
+                return int(cell.cell_contents)
+        except ValueError:
+            pass
+    return None
+
+
+def shielded(last_op: int, method: str) -> bool:
+    """does the @operation wrapper move the receiver into a new CTE before the method body sees it?
+    (INIT = -1, NO_OP = 0, SELECT = 5: the rule of operations.operation, C01's Gen.Operations)"""
+    op = method_op(method)
+    if op is None:
+        return False
+    if last_op == -1:
+        return True
+    new_op = op if op != 0 else last_op
+    return new_op < last_op or (last_op == new_op == 5)
+
+
+# the DataFrame method(s) a statement applies to its input frames
+STEP_METHODS = {
+    "where": ["where"], "select": ["select"], "withColumn": ["withColumn"], "distinct": ["distinct"], "alias": ["alias"],
+    "select_qualified": ["select"], "join_alias": ["join"], "union": ["union"], "register": ["createOrReplaceTempView"],
+    "collect": ["collect"], "count": ["count"], "show": ["show"], "schema": ["schema"], "bad_collect": ["select"],
+    "handle_reuse": ["select", "distinct"],
+}
+USE_METHODS = {"where": "where", "where_and": "where", "where_cmp": "where", "withColumn": "withColumn", "select_as": "select", "orderBy": "orderBy", "groupBy": "groupBy"}
+SIBLING_METHODS = {
+    "distinct": "distinct", "dropDuplicates": "dropDuplicates", "orderBy": "orderBy", "limit": "limit", "groupBy": "groupBy",
+    "drop": "drop", "withColumnRenamed": "withColumnRenamed", "union_self": "union", "where": "where", "select": "select",
+    "alias": "alias", "join_self": "join", "fillna": "fillna", "dropna": "dropna", "intersect_self": "intersect", "count": "count",
+}
+
+
+def methods_of(st: dict) -> t.List[str]:
+    if st["op"] == "use":
+        return [USE_METHODS[st["how"]]]
+    if st["op"] == "sibling":
+        return [SIBLING_METHODS[st["how"]]]
+    return STEP_METHODS.get(st["op"], [])
 
 
 def snapshot(s: t.Any, tables: t.Sequence[str] = ()) -> dict:
@@ -449,7 +1089,110 @@ def exec_step(s: t.Any, env: t.Dict[str, t.Any], st: dict, data: dict) -> t.Any:
         env[st["out"]] = env[st["in"]].select(*[F.col(r).alias(n) for r, n in st["refs"]])
     elif op == "join_alias":
         l, r = env[st["l"]], env[st["r"]]
-        env[st["out"]] = l.join(r, F.col(st["on"][0]) == F.col(st["on"][1])).select(*[F.col(r_).alias(n) for r_, n in st["sel"]])
+        on = env[st["on_obj"]] if st.get("on_obj") else F.col(st["on"][0]) == F.col(st["on"][1])
+        env[st["out"]] = l.join(r, on).select(*[F.col(r_).alias(n) for r_, n in st["sel"]])
+    elif op == "mkcol":
+        c = X.to_column(_tuple(st["e"]), F)
+        c.expression.meta[TAG] = st["_obj"]
+        _STATE.setdefault("held", {})[st["_obj"]] = c
+        env[st["out"]] = c
+    elif op == "mkhandle":
+        c = env[st["in"]][st["col"]]
+        if st.get("lit") is not None:
+            c = c > st["lit"]
+        c.expression.meta[TAG] = st["_obj"]
+        _STATE.setdefault("held", {})[st["_obj"]] = c
+        env[st["out"]] = c
+    elif op == "use":
+        df, c, how = env[st["in"]], env[st["c"]], st["how"]
+        if how == "where":
+            out = df.where(c)
+        elif how == "where_and":
+            out = df.where(c & (F.col("k") > st["lit"]))
+        elif how == "where_cmp":
+            out = df.where(c > st["lit"])
+        elif how == "withColumn":
+            out = df.withColumn("j", c)
+        elif how == "select_as":
+            out = df.select(c.alias("j"))
+        elif how == "orderBy":
+            out = df.orderBy(c)
+        elif how == "groupBy":
+            out = df.groupBy(c.alias("g")).agg(F.count(F.lit(1)).alias("n"))
+        else:
+            raise ValueError(how)
+        env[st["out"]] = out
+    elif op == "union":
+        env[st["out"]] = env[st["in"]].union(env[st["other"]])
+    elif op == "sibling":
+        df, how = env[st["in"]], st["how"]
+        cols = list(df.columns)
+        if how == "distinct":
+            out = df.distinct()
+        elif how == "dropDuplicates":
+            out = df.dropDuplicates()
+        elif how == "orderBy":
+            out = df.orderBy(F.col(cols[0]).desc())
+        elif how == "limit":
+            out = df.limit(1)
+        elif how == "groupBy":
+            out = df.groupBy(cols[0]).agg(F.count(F.lit(1)).alias("n"))
+        elif how == "drop":
+            out = df.drop(cols[-1])
+        elif how == "withColumnRenamed":
+            out = df.withColumnRenamed(cols[-1], "renamed")
+        elif how == "union_self":
+            out = df.union(df)
+        elif how == "intersect_self":
+            out = df.intersect(df)
+        elif how == "where":
+            out = df.where(F.col(cols[0]) > 1)
+        elif how == "select":
+            out = df.select(F.col(cols[0]))
+        elif how == "alias":
+            out = df.alias("z")
+        elif how == "join_self":
+            out = df.join(df, on=cols[0])
+        elif how == "fillna":
+            out = df.fillna(0)
+        elif how == "dropna":
+            out = df.dropna()
+        elif how == "count":
+            out = df
+            df.count()
+        else:
+            raise ValueError(how)
+        env[st["out"]] = out
+    elif op == "read":
+        r = s.read
+        for item in st["chain"]:
+            if item[0] == "format":
+                r = r.format(item[1])
+            elif item[0] == "option":
+                r = r.option(item[1], item[2])
+            elif item[0] == "options":
+                r = r.options(**item[1])
+            else:
+                raise ValueError(item)
+        path = os.path.join(env["@files"], st["file"] + ".csv")
+        kw = dict(st.get("kwargs") or {})
+        _STATE["reader_seen"] = None
+        if st["call"] == "csv":
+            env[st["out"]] = r.csv(path, **kw)
+        else:
+            env[st["out"]] = r.load(path, **kw)
+    elif op == "catalog":
+        what, name = st["what"], st["name"]
+        if what == "listColumns":
+            s.catalog.listColumns(name)
+        elif what == "listTables":
+            s.catalog.listTables()
+        elif what == "tableExists":
+            s.catalog.tableExists(name)
+        elif what == "getTable":
+            s.catalog.getTable(name)
+        else:
+            raise ValueError(what)
     elif op == "handle_reuse":
         df = env[st["in"]]
         c = df[st["col"]]
@@ -479,7 +1222,7 @@ def exec_step(s: t.Any, env: t.Dict[str, t.Any], st: dict, data: dict) -> t.Any:
     return None
 
 
-READ_ONLY = {"collect", "count", "show", "schema", "bad_collect", "bad_sql"}
+READ_ONLY = {"collect", "count", "show", "schema", "bad_collect", "bad_sql", "catalog"}
 EXPECT_RAISE = {"bad_collect", "bad_sql"}
 
 
@@ -496,6 +1239,7 @@ def run_script(c: dict, which: str) -> dict:
     """which = 'inter' (prelude + the interleaving) or 'alone' (prelude + P only).  Returns per executed step:
     tag, op, error, registry snapshot, normalisation trace, listTables before/after for read-only actions."""
     install_hook()
+    _STATE["held"] = {}
     s = vlib.fresh_duckdb_session()
     for name in c.get("tables", []):
         tb = REAL_TABLES[name]
@@ -503,19 +1247,35 @@ def run_script(c: dict, which: str) -> dict:
         for r_ in tb["rows"]:
             s._conn.execute(f"insert into {name} values ({', '.join('?' for _ in r_)})", list(r_))
     env: t.Dict[str, t.Any] = {}
-    seq: t.List[t.Tuple[str, dict]] = [("S", st) for st in c["prelude"]]
+    pool = pool_of(c)
+    if c.get("files"):
+        import tempfile
+
+        d = tempfile.mkdtemp(prefix="c18_")
+        env["@files"] = d
+        for name, f in c["files"].items():
+            with open(os.path.join(d, name + ".csv"), "w") as fh:
+                fh.write("\n".join(",".join("" if v is None else str(v) for v in row) for row in [f["header"]] + f["rows"]) + "\n")
+    seq: t.List[t.Tuple[str, dict]] = [("S", (dict(st, _obj=pool.index(st["out"])) if st.get("out") in pool else st)) for st in c["prelude"]]
     if which == "inter":
         seq += [(tag, (c["P"] if tag == "P" else c["H"])[i]) for tag, i in c["inter"]]
     else:
         seq += [("P", st) for st in c["P"]]
     log_: t.List[dict] = []
+    heap0: t.Optional[t.List[t.List[str]]] = None
     for tag, st in seq:
+        if tag != "S" and heap0 is None:
+            heap0 = pool_idents(s, env, pool)
         del _TRACE[:]
+        del _QTRACE[:]
         before = None
         if st["op"] in READ_ONLY:
             before = sorted(t_.name for t_ in s.catalog.listTables())
             before_star = sorted(t_.name for t_ in s.catalog.listTables(pattern="*"))
         err = None
+        # the kept DataFrames this statement works on: their state and last_op as the statement finds them
+        held_in = [st[k] for k in ("in", "l", "r", "other") if st.get(k) in pool and is_frame(env.get(st.get(k)))] if tag != "S" else []
+        pre = {"pool": pool_idents(s, env, pool) if (held_in or st["op"] == "read") else None, "last_ops": {h: int(env[h].last_op) for h in held_in}}
         if "in" in st and st["in"] not in env and st["op"] != "create":
             err = "input frame was not built"
         else:
@@ -524,6 +1284,16 @@ def run_script(c: dict, which: str) -> dict:
             except Exception as e:  # noqa
                 err = f"{type(e).__name__}: {str(e)[:120]}"
         rec = {"tag": tag, "op": st["op"], "err": err, "snap": snapshot(s, c.get("tables", [])), "trace": copy.deepcopy(_TRACE)}
+        if pool:
+            rec["pool"] = pool_idents(s, env, pool)
+            rec["held_in"] = [[pool.index(h), [[m, shielded(pre["last_ops"][h], m)] for m in methods_of(st)]] for h in held_in]
+            rec["pre_pool"] = pre["pool"]
+        if st["op"] == "read":
+            rec["reader_seen"] = _STATE.get("reader_seen")
+            rec["reader_obj"] = pool.index(READER)
+            rec["chain_tokens"] = chain_tokens(st)
+        if st["op"] == "sql" and st.get("srcs") is not None:
+            rec["qualify"] = copy.deepcopy(_QTRACE)
         if before is not None:
             rec["tables_before"] = before
             rec["tables_before_star"] = before_star
@@ -535,7 +1305,23 @@ def run_script(c: dict, which: str) -> dict:
             rec["read_cols"] = {v: rec["snap"]["cols"].get(v) for v in st.get("views", [])}
         log_.append(rec)
     res = observe(env.get(c["result"]))
-    return {"log": log_, "result": res}
+    if env.get("@files"):
+        import shutil
+
+        shutil.rmtree(env["@files"], ignore_errors=True)
+    return {"log": log_, "result": res, "heap0": heap0 if heap0 is not None else pool_idents(s, env, pool)}
+
+
+def chain_tokens(st: dict) -> t.List[str]:
+    out = []
+    for item in st["chain"]:
+        if item[0] == "format":
+            out.append(f"format={item[1]}")
+        elif item[0] == "option":
+            out.append(f"{item[1]}={item[2]}")
+        elif item[0] == "options":
+            out += [f"{k}={v}" for k, v in item[1].items()]
+    return out
 
 
 # ------------------------------------------------------------------------------------------------
@@ -543,10 +1329,33 @@ def run_script(c: dict, which: str) -> dict:
 # ------------------------------------------------------------------------------------------------
 
 
+APPLY = -1000  # owner code of an apply event of log record i: APPLY - i
+
+
+def _base(e: t.Any) -> t.Any:
+    return {"base": {"e": e}}
+
+
+def _passes(trace: t.List[dict]) -> t.List[t.List[dict]]:
+    out: t.List[t.List[dict]] = []
+    for q in trace:
+        if out and out[-1][0].get("pass") == q.get("pass") and q.get("pass") is not None:
+            out[-1].append(q)
+        else:
+            out.append([q])
+    return out
+
+
+def _ctx_json(q: dict) -> t.List[dict]:
+    return [{"name": n, "ids": ([b, s_] if b is not None and s_ is not None else None)} for n, b, s_ in q["ctx"]]
+
+
 def model_events(c: dict, run: dict) -> t.Tuple[t.List[t.Any], t.List[int]]:
-    """the Lean events of an executed script, with the real ids; returns (events, index of the log record each
-    `step` event belongs to).  The *shape* of every step (which registries grow, by how much) is fixed by the
-    kind of statement — the ids themselves are what uuid4 returned."""
+    """the Lean events of an executed script, with the real ids; returns (events, owner code of each event:
+    index of the log record for `step` events, APPLY - index for `apply` events, -1 for queries).  The *shape* of every
+    step (which registries grow, by how much) is fixed by the kind of statement — the ids themselves are what uuid4
+    returned.  Identifiers of Column objects the user holds are NOT taken from the run: an `apply` event names the
+    object and the model reads its own heap."""
     evs: t.List[t.Any] = []
     owner: t.List[int] = []
     prev = {"known": [], "branch": [], "seq": [], "alias": {}, "counter": 1, "views": [], "cols": {}}
@@ -557,11 +1366,34 @@ def model_events(c: dict, run: dict) -> t.Tuple[t.List[t.Any], t.List[int]]:
         new_s = [x for x in snap["seq"] if x not in prev["seq"]]
         new_k = [x for x in snap["known"] if x not in prev["known"] and x not in new_b and x not in new_s]
         op = rec["op"]
-        # P's normalisation queries / view reads happen while the statement runs, before its effect on the registries
-        if rec["tag"] == "P":
-            for q in rec["trace"]:
-                evs.append({"query": {"ctx": [{"name": n, "ids": ([b, s_] if b is not None and s_ is not None else None)} for n, b, s_ in q["ctx"]], "joined": q["joined"], "ident": q["ident"]}})
-                owner.append(-1)
+        # a statement that works on kept objects: P observes the state it finds them in; then normalisation (while the
+        # statement runs, before its effect on the registries); then what the method bodies do to their receivers
+        is_p = rec["tag"] == "P"
+        if rec["tag"] in ("P", "H") and op == "read":
+            for tok in rec["chain_tokens"]:
+                evs.append({"edit": {"own": is_p, "site": {"accessor": {"a": "read"}}, "obj": rec["reader_obj"], "token": tok, "shielded": False}})
+                owner.append(APPLY - i)
+            evs.append({"use": {"own": is_p, "obj": rec["reader_obj"], "extra": rec["chain_tokens"]}})
+            owner.append(-3)
+        if is_p:
+            for obj, _ms in rec.get("held_in", []):
+                evs.append({"use": {"own": True, "obj": obj, "extra": []}})
+                owner.append(-3)
+        if rec["tag"] in ("P", "H"):
+            for ps in _passes(rec["trace"]):
+                held = any(q.get("ref") for q in ps)
+                if held:
+                    refs = [({"held": {"obj": q["ref"][0], "idx": q["ref"][1]}} if q.get("ref") else {"fresh": {"n": q["ident"]}}) for q in ps]
+                    evs.append({"apply": {"own": rec["tag"] == "P", "path": ps[0].get("path", "multi"), "refs": refs, "ctx": _ctx_json(ps[0]), "joined": ps[0]["joined"]}})
+                    owner.append(APPLY - i)
+                elif rec["tag"] == "P":
+                    for q in ps:
+                        evs.append(_base({"query": {"ctx": _ctx_json(q), "joined": q["joined"], "ident": q["ident"]}}))
+                        owner.append(-1)
+            for obj, ms in rec.get("held_in", []):
+                for m, sh in ms:
+                    evs.append({"edit": {"own": is_p, "site": {"builder": {"method": m}}, "obj": obj, "token": m, "shielded": sh}})
+                    owner.append(APPLY - i)
         steps: t.List[t.Any] = []
         if op == "create":
             steps = [{"create": {"b": (new_b + ["?"])[0], "s": (new_s + ["?"])[0]}}]
@@ -570,7 +1402,7 @@ def model_events(c: dict, run: dict) -> t.Tuple[t.List[t.Any], t.List[int]]:
                 steps = [{"derive": {"b": (new_b + ["?"])[0], "s": (new_s + ["?"])[0]}}]
             if op == "bad_sql" or rec["err"]:
                 steps.append("failedAction")
-        elif op == "alias":
+        elif op == "alias" or (op == "sibling" and rec.get("_how") == "alias" and not rec["err"]):
             steps = [{"alias": {"n": find_alias_name(prev, snap), "s": (new_s + ["?"])[0]}}]
         elif op == "table_real":
             if new_b or new_s:  # a read of the permanent table (not of a temp view that shadows it)
@@ -587,14 +1419,24 @@ def model_events(c: dict, run: dict) -> t.Tuple[t.List[t.Any], t.List[int]]:
         elif op == "register":
             if not rec["err"]:
                 steps = [{"registerView": {"n": rec["_name"], "cols": rec["_cols"]}}]
-        elif op in ("collect", "count", "show"):
+        elif op in ("collect", "count", "show", "catalog"):
             steps = ["action"] if not rec["err"] else ["failedAction"]
+        elif op == "read":
+            # a file read: a frame over the file to look its schema up (a temporary view named by a random id), then the
+            # frame that is returned
+            steps = []
+            for j in range(max(len(new_b), len(new_s))):
+                steps.append({"derive": {"b": (new_b[j:] + ["?"])[0], "s": (new_s[j:] + ["?"])[0]}})
+                if j == 0:
+                    steps += [{"schemaLookup": {"v": v}} for v in new_k]
+            if rec["err"]:
+                steps.append("failedAction")
         elif op == "bad_collect":
             steps = ["failedAction"]
         else:
             steps = ["transform"]
         for st in steps:
-            evs.append({"step": {"own": own, "st": st}})
+            evs.append(_base({"step": {"own": own, "st": st}}))
             owner.append(i)
         prev = snap
     return evs, owner
@@ -622,11 +1464,21 @@ def annotate(c: dict, run: dict, which: str) -> None:
             rec["_name"] = st["name"].lower()
             rec["_cols"] = list(REAL_TABLES[st["name"]]["schema"])
         rec["_views"] = st.get("views", [])
+        rec["_srcs"] = st.get("srcs")
+        rec["_how"] = st.get("how")
+
+
+def sql_read(rec: dict) -> t.Optional[dict]:
+    """the single-scope statement of a P `session.sql` step as qualify saw it: sources and unqualified columns"""
+    qs = rec.get("qualify") or []
+    if len(qs) != 1:
+        return None
+    return {"srcs": rec["_srcs"], "cols": qs[0]["ucols"]}
 
 
 def events_with_reads(c: dict, run: dict) -> t.Tuple[t.List[t.Any], t.List[int]]:
     evs, owner = model_events(c, run)
-    # insert readView events for P's sql statements: right before the statement's own step events
+    # insert readView / readSql events for P's sql statements: right before the statement's own step events
     out: t.List[t.Any] = []
     own_out: t.List[int] = []
     done: t.Set[int] = set()
@@ -636,11 +1488,20 @@ def events_with_reads(c: dict, run: dict) -> t.Tuple[t.List[t.Any], t.List[int]]
             rec = run["log"][o]
             if rec["tag"] == "P" and rec["op"] == "sql":
                 for v in rec["_views"]:
-                    out.append({"readView": {"n": v}})
+                    out.append(_base({"readView": {"n": v}}))
+                    own_out.append(-2)
+                rd = sql_read(rec) if rec.get("_srcs") is not None else None
+                if rd is not None:
+                    out.append(_base({"readSql": rd}))
                     own_out.append(-2)
         out.append(e)
         own_out.append(o)
     return out, own_out
+
+
+def initial_heap(run: dict) -> t.List[t.List[str]]:
+    """the state of the kept objects when both programs start (observed right after the prelude)"""
+    return run.get("heap0") or []
 
 
 # ------------------------------------------------------------------------------------------------
@@ -684,13 +1545,77 @@ def same_result(a: dict, b: dict) -> bool:
     return a["cols"] == b["cols"] and bag(a["rows"]) == bag(b["rows"])
 
 
+def impl_obs(run: dict) -> t.List[t.Any]:
+    """what P observed, in the order the model lists it: per statement its queries, then the catalog columns of the
+    views its SQL reads, then the attribution of its unqualified columns"""
+    out: t.List[t.Any] = []
+    heap0 = initial_heap(run)
+    for rec in run["log"]:
+        if rec["tag"] != "P":
+            continue
+        if rec["op"] == "read":
+            out.append(("s", None, {"state": rec.get("reader_seen") or [], "kind": "reader"}))
+        for obj, _ms in rec.get("held_in", []):
+            out.append(("s", None, {"state": rec["pre_pool"][obj], "initial": heap0[obj], "kind": "frame"}))
+        for q in rec["trace"]:
+            out.append(("q", [x[0] for x in q["ctx"]], q["after"]))
+        if rec["op"] == "sql":
+            for v in rec["_views"]:
+                out.append(("v", None, {"cols": pre_cols(run, rec, v)}))
+            if rec.get("_srcs") is not None and sql_read(rec) is not None:
+                out.append(("r", None, {"resolved": rec["qualify"][0]["resolved"], "err": rec["qualify"][0]["err"]}))
+    return out
+
+
+def canon_obs(kind: str, names: t.Optional[t.List[str]], after: t.Any) -> t.Any:
+    """an observation up to the names of P's own CTEs (they differ between two runs): position in the chain"""
+    if kind == "v":
+        return ("v", json.dumps(after.get("cols")))
+    if kind == "r":
+        return ("r", json.dumps(after.get("resolved")))
+    if kind == "s":
+        if after["kind"] == "frame":
+            return ("s", "as built" if after["state"] == after["initial"] else "changed")
+        return ("s", json.dumps(last_wins(after["state"]), sort_keys=True))
+    if isinstance(after, dict) and after.get("raised"):
+        return ("q", "raised")
+    if isinstance(after, dict) and "ident" in after:
+        a = after["ident"]
+        return ("q", names.index(a) if names and a in names else "=")
+    return ("q", None)
+
+
+def last_wins(tokens: t.List[str]) -> t.Dict[str, str]:
+    """reader settings: a later `k=v` replaces an earlier one"""
+    out: t.Dict[str, str] = {}
+    for tok in tokens:
+        k, _, v = tok.partition("=")
+        out[k] = v
+    return out
+
+
+def heap_eq(kinds: t.List[str], heap0: t.List[t.List[str]], model: t.List[t.List[str]], impl: t.List[t.List[str]]) -> bool:
+    """Columns: the identifiers themselves; DataFrames: changed or not (the model logs edits, the run shows a digest);
+    the reader: its settings"""
+    if len(model) != len(impl):
+        return False
+    for k, h0, m, i_ in zip(kinds, heap0, model, impl):
+        if k == "column" and m != i_:
+            return False
+        if k == "frame" and (m == h0) != (i_ == h0):
+            return False
+        if k == "reader" and last_wins(m) != last_wins(i_):
+            return False
+    return True
+
+
 def evaluate(cases: t.List[dict], workers: int = 0) -> t.List[dict]:
     runs = vlib.parallel_map(_run_both, cases, workers)
     lean_cases = []
     metas = []
     for i, (c, (ri, ra)) in enumerate(zip(cases, runs)):
         evs, owner = events_with_reads(c, ri)
-        lean_cases.append({"case": i, "events": evs, "chain": []})
+        lean_cases.append({"case": i, "events": evs, "heap": initial_heap(ri), "chain": []})
         metas.append(owner)
     outs = vlib.run_driver("C18", lean_cases)
     res = []
@@ -699,7 +1624,6 @@ def evaluate(cases: t.List[dict], workers: int = 0) -> t.List[dict]:
             raise RuntimeError(f"driver rejected a case: {o}")
         problems: t.List[str] = []
         # (1) registries after every statement: model vs implementation
-        step_i = 0
         last_for: t.Dict[int, dict] = {}
         for e_owner, sess in zip([x for x in owner if x >= 0], o["sessions"]):
             last_for[e_owner] = sess
@@ -722,82 +1646,87 @@ def evaluate(cases: t.List[dict], workers: int = 0) -> t.List[dict]:
             if {k: v for k, v in snap["cols"].items() if v is not None} != mcols:
                 problems.append(f"catalog columns after statement {idx}: model {mcols} implementation {snap['cols']}")
                 break
+        # (1b) the Column objects the user holds, after every statement: model heap vs implementation
+        heap0 = initial_heap(ri)
+        if heap0:
+            heap_for: t.Dict[int, t.Any] = {}
+            for e_owner, hp in zip([x for x in owner if x <= APPLY], o["heaps"]):
+                heap_for[APPLY - e_owner] = hp
+            cur = heap0
+            kinds = pool_kinds(c)
+            for idx, rec in enumerate(ri["log"]):
+                if rec["tag"] == "S" or "pool" not in rec:
+                    continue
+                cur = heap_for.get(idx, cur)
+                if not heap_eq(kinds, heap0, cur, rec["pool"]):
+                    problems.append(f"kept objects {list(zip(pool_of(c), kinds))} after statement {idx} ({rec['op']}): model {cur} implementation {rec['pool']} (initially {heap0})")
+                    break
+            # P alone (the random ids and CTE names of that run are its own: compare "changed or not" per object)
+            alone0 = initial_heap(ra)
+            last_alone = [rec["pool"] for rec in ra["log"] if "pool" in rec]
+            if last_alone:
+                m_changed = [(last_wins(a) != last_wins(b)) if k == "reader" else a != b for k, a, b in zip(kinds, o["heapOwn"], heap0)]
+                i_changed = [(last_wins(a) != last_wins(b)) if k == "reader" else a != b for k, a, b in zip(kinds, last_alone[-1], alone0)]
+                if m_changed != i_changed:
+                    problems.append(f"held Column objects after P alone: model says changed={m_changed}, implementation {alone0} -> {last_alone[-1]}")
+        # (1c) what qualify was given: the catalog's schema, and per source the columns the model's catalog holds
+        for idx, rec in enumerate(ri["log"]):
+            if rec["tag"] == "P" and rec["op"] == "sql" and rec.get("_srcs") is not None:
+                qs = rec.get("qualify") or []
+                if len(qs) != 1:
+                    if not rec["err"]:
+                        problems.append(f"statement {idx}: session.sql called qualify {len(qs)} times")
+                    continue
+                seen = sorted((a, n) for a, n, _ in qs[0]["tables"])
+                if seen != sorted((a, n) for a, n in rec["_srcs"]):
+                    problems.append(f"statement {idx}: sources of the statement {seen} are not the declared ones {rec['_srcs']}")
+                for a, n, known in qs[0]["tables"]:
+                    if (rec["snap"]["cols"].get(n) or []) != known:
+                        problems.append(f"statement {idx}: qualify is not given the catalog's columns for {n}: {known} vs {rec['snap']['cols'].get(n)}")
         # (2) what P observed along the interleaving: model `full` vs implementation
-        impl_full = []
-        for rec in ri["log"]:
-            if rec["tag"] == "P":
-                if rec["op"] == "sql":
-                    for v in rec["_views"]:
-                        impl_full.append({"cols": rec["snap"]["cols"].get(v) if "read_cols" not in rec else rec["read_cols"].get(v)})
-                for q in rec["trace"]:
-                    impl_full.append(q["after"])
-        # order: the model lists queries of a statement, then its readViews; rebuild in the same order
-        impl_full = []
-        for rec in ri["log"]:
-            if rec["tag"] == "P":
-                for q in rec["trace"]:
-                    impl_full.append(q["after"])
-                if rec["op"] == "sql":
-                    for v in rec["_views"]:
-                        impl_full.append({"cols": pre_cols(ri, rec, v)})
+        impl_full = [x[2] for x in impl_obs(ri)]
         model_full = o["full"]
         model_ok = len(model_full) == len(impl_full) and all(obs_eq(m, i_) for m, i_ in zip(model_full, impl_full))
         if not model_ok:
             k = next((j for j, (m, i_) in enumerate(zip(model_full, impl_full)) if not obs_eq(m, i_)), None)
             problems.append(f"observation {k}: model {model_full[k] if k is not None else len(model_full)} implementation {impl_full[k] if k is not None else len(impl_full)}")
         # (3) the property: P after / within H vs P alone
-        pos_i = positions(p_trace(ri))
-        pos_a = positions(p_trace(ra))
-        cols_i = [pre_cols(ri, rec, v) for rec in ri["log"] if rec["tag"] == "P" and rec["op"] == "sql" for v in rec["_views"]]
-        cols_a = [pre_cols(ra, rec, v) for rec in ra["log"] if rec["tag"] == "P" and rec["op"] == "sql" for v in rec["_views"]]
+        obs_i = [canon_obs(*x) for x in impl_obs(ri)]
+        obs_a = [canon_obs(*x) for x in impl_obs(ra)]
         errs_i = [bool(rec["err"]) for rec in ri["log"] if rec["tag"] == "P"]
         errs_a = [bool(rec["err"]) for rec in ra["log"] if rec["tag"] == "P"]
         independent = same_result(ri["result"], ra["result"]) and errs_i == errs_a
-        lookups_same = pos_i == pos_a and cols_i == cols_a
-        # model's own-run observations vs the implementation's alone run (positions / columns)
-        model_own_ok = True
-        own = o["own"]
-        impl_own = []
-        for rec in ra["log"]:
-            if rec["tag"] == "P":
-                for q in rec["trace"]:
-                    impl_own.append(("q", [x[0] for x in q["ctx"]], q["after"]))
-                if rec["op"] == "sql":
-                    for v in rec["_views"]:
-                        impl_own.append(("v", None, pre_cols(ra, rec, v)))
-        full_q = [(([x[0] for x in q["ctx"]]) if True else None) for rec in ri["log"] if rec["tag"] == "P" for q in rec["trace"]]
-        # compare by position: the model's `own` run uses the interleaved run's CTE names
+        lookups_same = obs_i == obs_a
+        # model's own-run observations vs the implementation's alone run (positions / columns / attributions);
+        # the model's `own` run uses the interleaved run's CTE names
+        full_names = [x[1] for x in impl_obs(ri)]
         mo = []
-        qi = 0
-        for m in own:
+        for j, m in enumerate(o["own"]):
+            names = full_names[j] if j < len(full_names) else None
             if "cols" in m:
-                mo.append(("v", m["cols"]))
+                mo.append(("v", json.dumps(m["cols"])))
+            elif "resolved" in m:
+                mo.append(("r", json.dumps(m["resolved"])))
+            elif "state" in m:
+                src = impl_obs(ri)[j][2] if j < len(full_names) else {}
+                if src.get("kind") == "frame":
+                    mo.append(("s", "as built" if m["state"] == src.get("initial") else "changed"))
+                else:
+                    mo.append(("s", json.dumps(last_wins(m["state"]), sort_keys=True)))
             elif m.get("raised"):
                 mo.append(("q", "raised"))
-                qi += 1
             else:
-                names = full_q[qi] if qi < len(full_q) else []
-                mo.append(("q", names.index(m["ident"]) if m["ident"] in names else "="))
-                qi += 1
-        io = []
-        for kind, names, after in impl_own:
-            if kind == "v":
-                io.append(("v", after))
-            elif isinstance(after, dict) and after.get("raised"):
-                io.append(("q", "raised"))
-            elif isinstance(after, dict):
-                io.append(("q", names.index(after["ident"]) if after["ident"] in names else "="))
-            else:
-                io.append(("q", None))
-        if len(mo) == len(io) and mo != io:
-            model_own_ok = False
-            problems.append("the model's run of P alone differs from the implementation's run of P alone (lookup positions / view columns)")
+                mo.append(("q", names.index(m["ident"]) if names and m["ident"] in names else "="))
+        if len(mo) == len(obs_a) and mo != obs_a:
+            k = next(j for j in range(len(mo)) if mo[j] != obs_a[j])
+            problems.append(f"the model's run of P alone differs from the implementation's run of P alone at observation {k}: model {mo[k]} implementation {obs_a[k]}")
         # (4) read-only actions leave nothing the catalog reports
         leaks = []
         for run in (ri, ra):
             for rec in run["log"]:
                 if "tables_before" in rec and (rec["tables_before"] != rec["tables_after"] or rec["tables_before_star"] != rec["tables_after_star"]):
                     leaks.append({"op": rec["op"], "before": rec["tables_before"], "after": rec["tables_after"], "after_star": rec["tables_after_star"]})
+        n_q = [x for x in obs_i if x[0] == "q"]
         res.append(
             {
                 "case": c,
@@ -809,8 +1738,10 @@ def evaluate(cases: t.List[dict], workers: int = 0) -> t.List[dict]:
                 "lookups_same": lookups_same,
                 "model_predicts_difference": o["full"] != o["own"],
                 "leaks": leaks,
-                "n_queries": len(pos_i),
-                "n_nontrivial_queries": sum(1 for x in pos_i if isinstance(x, int)),
+                "n_queries": len(n_q),
+                "n_nontrivial_queries": sum(1 for x in n_q if isinstance(x[1], int)),
+                "n_held": sum(1 for x in owner if x <= APPLY),
+                "n_sql_reads": sum(1 for x in obs_i if x[0] == "r"),
             }
         )
     return res
@@ -826,6 +1757,14 @@ def obs_eq(m: dict, i_: t.Any) -> bool:
         return False
     if "cols" in m:
         return isinstance(i_, dict) and "cols" in i_ and m["cols"] == i_["cols"]
+    if "resolved" in m:
+        return isinstance(i_, dict) and "resolved" in i_ and m["resolved"] == i_["resolved"]
+    if "state" in m:
+        if not (isinstance(i_, dict) and "state" in i_):
+            return False
+        if i_["kind"] == "frame":
+            return (m["state"] == i_["initial"]) == (i_["state"] == i_["initial"])
+        return last_wins(m["state"]) == last_wins(i_["state"])
     if m.get("raised"):
         return isinstance(i_, dict) and bool(i_.get("raised"))
     return isinstance(i_, dict) and i_.get("ident") == m.get("ident")
@@ -954,7 +1893,7 @@ def gen_values() -> t.Dict[str, str]:
     path = os.path.join(vlib.GEN_DIR, "SessionIds.lean")
     out: t.Dict[str, str] = {}
     if os.path.exists(path):
-        for m in re.finditer(r"^def (\w+) : [^:=]+ := (.+)$", open(path).read(), flags=re.M):
+        for m in re.finditer(r"^def (\w+)(?: \([^)]*\))* : [^:=]+ := (.+)$", open(path).read(), flags=re.M):
             out[m.group(1)] = m.group(2).strip()
     return out
 
@@ -982,7 +1921,93 @@ def live_decisions() -> t.Dict[str, str]:
     _ = a.schema
     views1 = s._conn.execute("select count(*) from duckdb_views() where not internal and temporary").fetchone()[0]
     out["sessSchemaViewTemporary"] = "true" if views1 == views0 + 1 else "false"
+    # the two paths into normalize: is the caller's Column left alone?
+    from sqlglot import exp as _exp
+
+    def idents(col: t.Any) -> t.List[str]:
+        return [i.name for i in col.expression.find_all(_exp.Identifier)]
+
+    from sqlframe.duckdb import functions as F
+
+    c1, c2 = F.col("zz.k") > 0, F.col("zz.k")
+    b1, b2 = idents(c1), idents(c2)
+    x.where(c1)
+    x.select(c2)
+    out["sessNormColCopies"] = "true" if idents(c1) == b1 else "false"
+    out["sessNormColsCopies"] = "true" if idents(c2) == b2 else "false"
+    c3 = F.col("zz.k")
+    out["sessColumnCopyDeep"] = "true" if c3.copy().expression is not c3.expression and all(p is not q for p, q in zip(c3.copy().expression.find_all(_exp.Identifier), c3.expression.find_all(_exp.Identifier))) else "false"
+    # builder objects are new at every access
+    out["sessReadFresh"] = "true" if s.read is not s.read else "false"
+    out["sessWriteFresh"] = "true" if a.write is not a.write else "false"
+    out["sessNaFresh"] = "true" if a.na is not a.na else "false"
+    out["sessStatFresh"] = "true" if a.stat is not a.stat else "false"
+    # no method edits its receiver: derive a sibling with every transformation from a WHERE-level frame (the wrapper
+    # hands such a receiver to most method bodies as it is) and compare the receiver's own text
+    w = a.where(F.col("k") > 0)
+    edited = []
+    for name, call in SIBLING_CALLS.items():
+        before = (w.expression.sql(), int(w.last_op))
+        try:
+            call(w, F)
+        except Exception:  # noqa
+            pass
+        if (w.expression.sql(), int(w.last_op)) != before:
+            edited.append(name)
+            w = a.where(F.col("k") > 0)
+    out["sessInPlaceBuilderMethods"] = "[" + ", ".join(json.dumps(m) for m in sorted(edited)) + "]"
+    # session.sql's infer_schema argument in the four session states the generated expression distinguishes
+    seen = {}
+    from sqlframe.base import session as S
+
+    orig_q = S.qualify_func
+
+    def spy(expression, **kw):
+        seen["infer"] = kw.get("infer_schema")
+        return orig_q(expression, **kw)
+
+    S.qualify_func = spy
+    try:
+        vals = {}
+        s2 = vlib.fresh_duckdb_session()
+        s2.sql("SELECT 1 AS one")
+        vals[(False, True)] = seen.get("infer")
+        s2.createDataFrame([(1,)], schema="k bigint").createOrReplaceTempView("c18_v")
+        s2.sql("SELECT 1 AS one")
+        vals[(True, False)] = seen.get("infer")
+    finally:
+        S.qualify_func = orig_q
+    out["sessSqlInferSchema@fresh"] = str(vals[(False, True)]).lower()
+    out["sessSqlInferSchema@view"] = str(vals[(True, False)]).lower()
     return out
+
+
+SIBLING_CALLS = {
+    "distinct": lambda d, F: d.distinct(),
+    "dropDuplicates": lambda d, F: d.dropDuplicates(),
+    "select": lambda d, F: d.select("k"),
+    "withColumn": lambda d, F: d.withColumn("j", F.col("k") + 1),
+    "where": lambda d, F: d.where(F.col("k") > 1),
+    "orderBy": lambda d, F: d.orderBy("k"),
+    "limit": lambda d, F: d.limit(1),
+    "groupBy": lambda d, F: d.groupBy("k").count(),
+    "drop": lambda d, F: d.drop("s"),
+    "withColumnRenamed": lambda d, F: d.withColumnRenamed("s", "t"),
+    "union": lambda d, F: d.union(d),
+    "intersect": lambda d, F: d.intersect(d),
+    "join": lambda d, F: d.join(d, on="k"),
+    "alias": lambda d, F: d.alias("c18_a"),
+    "fillna": lambda d, F: d.fillna(0),
+    "dropna": lambda d, F: d.dropna(),
+    "count": lambda d, F: d.count(),
+    "createOrReplaceTempView": lambda d, F: d.createOrReplaceTempView("c18_w"),
+}
+
+
+def eval_infer(expr: str, temp_views: bool, schema_empty: bool) -> str:
+    """evaluate the generated Lean boolean expression over (tempViews, schemaEmpty)"""
+    py = expr.replace("&&", " and ").replace("||", " or ").replace("!", " not ").replace("true", "True").replace("false", "False")
+    return str(bool(eval(py, {"tempViews": temp_views, "schemaEmpty": schema_empty}))).lower()  # noqa: S307 (generated by gen_c18 from a closed grammar)
 
 
 def check_gen(ctx: Ctx) -> t.Dict[str, t.Any]:
@@ -992,6 +2017,9 @@ def check_gen(ctx: Ctx) -> t.Dict[str, t.Any]:
     except Exception as e:  # noqa
         ctx.broken.append(f"Gen.SessionIds could not be exercised against the running code: {type(e).__name__}: {str(e)[:200]}")
         return {}
+    if "sessSqlInferSchema" in gv:
+        gv["sessSqlInferSchema@fresh"] = eval_infer(gv["sessSqlInferSchema"], False, True)
+        gv["sessSqlInferSchema@view"] = eval_infer(gv["sessSqlInferSchema"], True, False)
     diff = {k: (gv.get(k), v) for k, v in lv.items() if gv.get(k) != v}
     if gv and diff:
         ctx.broken.append(f"Gen.SessionIds disagrees with the running code (generated, observed): {diff}")
@@ -1029,6 +2057,41 @@ def show_step(st: dict) -> str:
         return f"{st['out']} = {st['in']}.alias({st['name']!r})"
     if op == "select_qualified":
         return f"{st['out']} = {st['in']}.select(" + ", ".join(f"col({r!r}).alias({n!r})" for r, n in st["refs"]) + ")"
+    if op == "mkcol":
+        return f"{st['out']} = {X.show(_tuple(st['e']))}   # a Column object the user keeps"
+    if op == "mkhandle":
+        return f"{st['out']} = {st['in']}[{st['col']!r}]" + (f" > {st['lit']}" if st.get("lit") is not None else "") + "   # a Column object the user keeps"
+    if op == "use":
+        how, c, d = st["how"], st["c"], st["in"]
+        call = {
+            "where": f"{d}.where({c})",
+            "where_and": f"{d}.where({c} & (col('k') > {st.get('lit')}))",
+            "where_cmp": f"{d}.where({c} > {st.get('lit')})",
+            "withColumn": f"{d}.withColumn('j', {c})",
+            "select_as": f"{d}.select({c}.alias('j'))",
+            "orderBy": f"{d}.orderBy({c})",
+            "groupBy": f"{d}.groupBy({c}.alias('g')).agg(count(lit(1)).alias('n'))",
+        }[how]
+        return f"{st['out']} = {call}"
+    if op == "union":
+        return f"{st['out']} = {st['in']}.union({st['other']})"
+    if op == "sibling":
+        d = st["in"]
+        call = {
+            "distinct": "distinct()", "dropDuplicates": "dropDuplicates()", "orderBy": "orderBy(col(<first column>).desc())", "limit": "limit(1)",
+            "groupBy": "groupBy(<first column>).agg(count(lit(1)).alias('n'))", "drop": "drop(<last column>)", "withColumnRenamed": "withColumnRenamed(<last column>, 'renamed')",
+            "union_self": f"union({d})", "intersect_self": f"intersect({d})", "where": "where(col(<first column>) > 1)", "select": "select(col(<first column>))",
+            "alias": "alias('z')", "join_self": f"join({d}, on=<first column>)", "fillna": "fillna(0)", "dropna": "dropna()", "count": "count()  # and keeps the frame",
+        }[st["how"]]
+        return f"{st['out']} = {d}.{call}"
+    if op == "read":
+        chain = "".join((f".format({i[1]!r})" if i[0] == "format" else f".option({i[1]!r}, {i[2]!r})" if i[0] == "option" else f".options(**{i[1]!r})") for i in st["chain"])
+        kw = "".join(f", {k}={v!r}" for k, v in (st.get("kwargs") or {}).items())
+        return f"{st['out']} = session.read{chain}.{st['call']}(<{st['file']}.csv>{kw})"
+    if op == "catalog":
+        return f"session.catalog.{st['what']}(" + ("" if st["what"] == "listTables" else repr(st["name"])) + ")"
+    if op == "join_alias" and st.get("on_obj"):
+        return f"{st['out']} = {st['l']}.join({st['r']}, {st['on_obj']}).select(" + ", ".join(f"col({r!r}).alias({n!r})" for r, n in st["sel"]) + ")"
     if op == "join_alias":
         return f"{st['out']} = {st['l']}.join({st['r']}, col({st['on'][0]!r}) == col({st['on'][1]!r})).select(" + ", ".join(f"col({r!r}).alias({n!r})" for r, n in st["sel"]) + ")"
     if op == "handle_reuse":
@@ -1049,8 +2112,8 @@ def show_step(st: dict) -> str:
 
 
 def show_case(c: dict) -> t.List[str]:
-    out = [f"{k} = {v}" for k, v in c["data"].items()] + [f"permanent table {n}{list(REAL_TABLES[n]['schema'])} = {REAL_TABLES[n]['rows']}" for n in c.get("tables", [])]
-    out += ["[shared] " + show_step(s) for s in c["prelude"]]
+    out = [f"{k} = {v}" for k, v in c["data"].items()] + [f"file {n}.csv = {[f['header']] + f['rows']}" for n, f in (c.get("files") or {}).items()] + [f"permanent table {n}{list(REAL_TABLES[n]['schema'])} = {REAL_TABLES[n]['rows']}" for n in c.get("tables", [])]
+    out += ["[shared] " + show_step(s) + ("   # kept and used again" if s.get("held") else "") for s in c["prelude"]]
     for tag, i in c["inter"]:
         out.append(f"[{tag}] " + show_step((c["P"] if tag == "P" else c["H"])[i]))
     out.append(f"result: {c['result']}.collect()   (compared with the same [P] statements alone in a fresh session)")
@@ -1070,7 +2133,41 @@ def cases_for(ctx: Ctx) -> t.List[dict]:
         c = family_shadow_table(ctx.rng)
         c["origin"] = "family_shadow_table"
         cases.append(c)
-    n = 1500 if ctx.thorough else 210
+    # a Column object handed to a method by other work, then by P: every kind of object x every method on H's side;
+    # P's method at random (quick) or every pair (thorough)
+    for kind in POOL_KINDS:
+        hows = ["join"] if kind == "jcond" else USE_HOWS["bool" if kind in ("qpred", "pred", "hpred") else "int"]
+        for hh in hows:
+            for hp in hows if ctx.thorough else [ctx.rng.choice(hows)]:
+                c = family_held_columns(ctx.rng, kind, hh, hp, share_frame=ctx.rng.random() < 0.5)
+                if c:
+                    c["origin"] = f"family_held_columns:{kind}:{hh}:{hp}"
+                    cases.append(c)
+    # a DataFrame that is kept while a sibling is derived from it: every shape of kept frame x every derivation
+    # (quick: each derivation on two shapes, each shape with two derivations)
+    combos = [(sh, hw) for sh in HELD_SHAPES for hw in SIBLING_HOWS]
+    if not ctx.thorough:
+        combos = [(ctx.rng.choice(HELD_SHAPES), hw) for hw in SIBLING_HOWS for _ in range(2)] + [(sh, ctx.rng.choice(SIBLING_HOWS)) for sh in HELD_SHAPES for _ in range(2)]
+        combos += [(sh, hw) for sh in ("where", "alias", "union", "join") for hw in ("distinct", "dropDuplicates", "limit", "orderBy")]
+    for sh, hw in combos:
+        c = family_held_frames(ctx.rng, sh, hw, ctx.rng.choice(["collect", "collect", "count", "derive", "own_sibling"]))
+        if c:
+            c["origin"] = f"family_held_frames:{sh}:{hw}"
+            cases.append(c)
+    # builder objects: the reader other work configured x the way P reads
+    for hc in READ_CHAINS_H:
+        for pc in READ_CHAINS_P if ctx.thorough else ctx.rng.sample(READ_CHAINS_P, 2):
+            c = family_readers(ctx.rng, hc, pc)
+            c["origin"] = "family_readers"
+            cases.append(c)
+    # session.sql over permanent tables / own views with unqualified columns x what other work made the session know
+    for shape in range(6):
+        for hist in SQL_HISTORIES if ctx.thorough else ctx.rng.sample(SQL_HISTORIES, 4):
+            c = family_sql_tables(ctx.rng, shape, hist)
+            if c:
+                c["origin"] = f"family_sql_tables:{shape}:{hist}"
+                cases.append(c)
+    n = 1500 if ctx.thorough else 180
     for _ in range(n):
         c = gen_case(ctx.rng)
         c["origin"] = "random"
@@ -1150,7 +2247,10 @@ def run(ctx: Ctx) -> None:
     ro_actions = 0
     raised = 0
     nontrivial = set()
+    origins: t.Dict[str, int] = {}
     for r in res:
+        o_ = str(r["case"].get("origin", "?")).split(":")[0]
+        origins[o_] = origins.get(o_, 0) + 1
         kind, sc = is_violation(r, known)
         counts[kind] += 1
         if kind == "known":
@@ -1217,16 +2317,25 @@ def run(ctx: Ctx) -> None:
         {
             "evaluations": len(res),
             "distinct_nontrivial": len(nontrivial),
-            "rule": "corpus, then random (P, H, interleaving): P = 2-4 construction steps (chains, alias + qualified references, aliased joins, "
-            "reused df['col'] handles, createOrReplaceTempView + session.sql / session.table, further transformation of SQL results), "
-            "H = 2-5 steps of the same vocabulary sharing alias names (x, y and the column name k), view names, source data and optionally the same "
-            "DataFrame object, plus collect/count/show/schema and actions that raise; random merges (H first in a quarter of the cases); "
+            "rule": "corpus; targeted families: a temp view shadowing a looked-up table; a kept Column object (alias-qualified reference / predicate / "
+            "expression / join condition / df['c'] handle) handed to where / withColumn / select / orderBy / groupBy / join first by H then by P — every kind x "
+            "every method; a kept DataFrame (leaf / result of where, alias, union, join, select, withColumn, distinct) from which H or P derives a sibling by "
+            "every transformation, used again afterwards, over data with duplicate rows and NULLs; file reads through builder chains on session.read "
+            "(every H chain x P chains); session.sql over permanent tables / own views with unqualified columns x histories of unrelated views, table "
+            "lookups, catalog calls, schema lookups, failing statements; then random (P, H, interleaving): P = 2-4 construction steps (chains, alias + "
+            "qualified references, aliased joins, reused df['col'] handles, kept Column objects and DataFrames, createOrReplaceTempView + session.sql / "
+            "session.table, statements over permanent tables, file reads, further transformation of SQL results), "
+            "H = 2-5 steps of the same vocabulary sharing alias names (x, y and the column name k), view names, source data, the kept objects, "
+            "plus collect/count/show/schema, catalog API calls and actions that raise; random merges (H first in a quarter of the cases); "
             "P's rows, columns, errors and lookup outcomes are compared with P alone in a fresh session; non-trivial = distinct (P, interleaving, data) "
             "with at least one identifier rewritten to a CTE name and a non-empty result",
             "traces_validated_against_impl": len(res) - len(model_bad),
             "history_independent": counts["ok"],
             "known_finding_histories": counts["known"],
             "normalisation_queries": nq,
+            "applications_of_kept_objects": sum(r["n_held"] for r in res),
+            "sql_statements_with_observed_qualification": sum(r["n_sql_reads"] for r in res),
+            "case_origin_histogram": origins,
             "identifiers_rewritten": nqn,
             "read_only_actions_checked": ro_actions,
             "statements_that_raised": raised,
@@ -1239,7 +2348,8 @@ def run(ctx: Ctx) -> None:
     ctx.assumptions += [
         "uuid4 values are fresh (hypothesis H_idsFresh of C18_history); user alias / column names are not of the shape r<32 hex>",
         "P does not read a view name that other work registers between P's own registration and P's read (the registry is shared state by design)",
-        "frames are immutable values: steps of other work cannot change P's frames (C04); the model tracks the session registries and the lookups only",
+        "objects that outlive a statement (kept Columns, kept DataFrames, the reader session.read hands out) are modelled as a heap; that the code never writes to it is proved from regenerated decisions (copies on both normalize paths, no in-place builder call on self.expression, accessors that construct a new object) and observed after every statement; whether the @operation wrapper shields a receiver is computed by the harness from the decorator's rule",
+        "what sqlglot's qualify does with an unqualified column (Resolver.get_table) is assumed as `resolveCol` and validated on every generated statement",
         "the rendered text is a function of the CTE bodies, their reference structure and the inserted literals (C18_text); equality of those across processes is checked by running two fresh interpreters",
     ]
 
